@@ -128,6 +128,15 @@ pub fn valid_cfg(info: &IndInfo, r: &mut Rng, first: &In, max_period: u64, tries
 	(def, false)
 }
 
+/// set every period-like number of a configuration (plain fields and MA lengths) to `n`
+pub fn shrink_periods(cfg: &mut Value, n: u64) {
+	cfg.walk_mut(&mut |v| {
+		if is_period(v) {
+			set_period(v, n);
+		}
+	});
+}
+
 /// largest period-like number in a configuration (for window-class coverage and stream lengths)
 pub fn max_period_in(cfg: &Value) -> u64 {
 	let mut m = 1;
